@@ -150,12 +150,16 @@ func c15Months(c *ctx) {
 		fd := [][]interface{}{}
 		for _, off := range []int{14 * 3600, -12 * 3600, 0, 8 * 3600} {
 			loc := time.FixedZone("fixed", off)
-			for _, md := range [][4]int{{1, 1, 0, 30}, {12, 31, 23, 30}, {1 + c.rng.Intn(12), 1 + c.rng.Intn(28), c.rng.Intn(24), c.rng.Intn(60)}} {
+			for mi, md := range [][4]int{{1, 1, 0, 30}, {12, 31, 23, 30}, {1 + c.rng.Intn(12), 1 + c.rng.Intn(28), c.rng.Intn(24), c.rng.Intn(60)}} {
 				if y < 1600 {
 					continue // time.Time is proleptic Gregorian: its fields name other days before the switch
 				}
+				// whole seconds, and a value in the last half second of a minute (a time value is truncated to its second)
 				t := time.Date(y, time.Month(md[0]), md[1], md[2], md[3], 7, 0, loc)
-				try(func() {
+				if mi == 1 || (mi == 2 && md[3]%2 == 0) {
+					t = time.Date(y, time.Month(md[0]), md[1], md[2], 59, 59, 600000000+md[3]*1000, loc)
+				}
+				pfd, _ := try(func() {
 					a, b := calendar.NewSolarFromDate(t), calendar.NewSolar(t.Year(), int(t.Month()), t.Day(), t.Hour(), t.Minute(), t.Second())
 					fd = append(fd, []interface{}{"Solar", off, sol(a), sol(b)})
 					w1, w2 := calendar.NewSolarWeekFromDate(t, 1), calendar.NewSolarWeekFromYmd(t.Year(), int(t.Month()), t.Day(), 1)
@@ -171,6 +175,10 @@ func c15Months(c *ctx) {
 					l1 := calendar.NewLunarFromDate(t)
 					fd = append(fd, []interface{}{"Lunar", off, sol(l1.GetSolar()), sol(b)})
 				})
+				if pfd {
+					// a constructor panicked on a time value all of whose fields are in range
+					fd = append(fd, []interface{}{"panic", off, []int{t.Year(), int(t.Month()), t.Day(), t.Hour(), t.Minute(), t.Second(), t.Nanosecond()}, []int{}})
+				}
 			}
 		}
 		u["fromDate"] = fd
@@ -225,11 +233,17 @@ func c15Nav(c *ctx) {
 			anchors = append(anchors, []int{1582, 9, 28}, []int{1582, 11, 1})
 		}
 		anchors = append(anchors, []int{y, 1, 1}, []int{y, 12, 31}, []int{y, 2, 28}, []int{y, 3, 1})
+		if y == years[0] {
+			anchors = append(anchors, c15CycleAnchors...)
+		}
 		for _, a := range anchors {
 			c15NavOne(c, a, c.rng.Intn(7), ns)
 		}
 	}
 }
+
+// anchors 400 and 800 years after the days next to the 1582 gap (a step of whole Gregorian cycles lands on them)
+var c15CycleAnchors = [][]int{{1982, 10, 1}, {1982, 10, 4}, {1982, 10, 10}, {1982, 10, 14}, {1982, 10, 15}, {2382, 10, 7}, {1982, 1, 1}}
 
 func c15NavOne(c *ctx, a []int, start int, ns []int) {
 	{
@@ -242,6 +256,10 @@ func c15NavOne(c *ctx, a []int, start int, ns []int) {
 			wns := append([]int{}, ns...)
 			if a[0] > 150 && a[0] < 9850 {
 				wns = append(wns, 300, -300, 1000, -1000, 5200, -5200)
+			}
+			if a[0] > 450 && a[0] < 9550 {
+				// one whole Gregorian cycle of 400 years = 20871 weeks, either way
+				wns = append(wns, 20871, -20871)
 			}
 			for _, n := range wns {
 				var r, b *calendar.SolarWeek
